@@ -14,10 +14,10 @@ from .common import gt
 PROP = "C11"
 
 BOUNDS = {
-    "quick": "regression: N=2 observations with individual (M_i,b_i,Sigma_i), Dy=1; Dw=1 fully symbolic, Dw=2 with the matrices bound to generic rationals (means, offsets and data symbolic) and with M symbolic (covariances concrete); both update orders; routes: sequential, joint+condition_on, prior*prod set_y; Kalman: T=2, scalar state fully symbolic, 2-d state with concrete matrices",
-    "thorough": "N=3 (all 6 orders) semi-symbolic, Dy=2, T=3 scalar, T=2 with Dz=2 and symbolic A or C",
+    "quick": "Kalman T=6 (Dz=2) and T=8 (Dz=1) with all model matrices bound to generic rationals and initial mean, offsets and data symbolic; prior built from Sigma / Sigma+Lambda / all three / a measure / diagonal; regression: N=2 observations with individual (M_i,b_i,Sigma_i), Dy=1; Dw=1 fully symbolic, Dw=2 with the matrices bound to generic rationals (means, offsets and data symbolic) and with M symbolic (covariances concrete); both update orders; routes: sequential, joint+condition_on, prior*prod set_y; Kalman: T=2, scalar state fully symbolic, 2-d state with concrete matrices",
+    "thorough": "Kalman T=12 (Dz=2,Dy=1), T=8 (2,2), T=6 (3,2) with concrete matrices; N=3 (all 6 orders) semi-symbolic, Dy=2, T=3 scalar, T=2 with Dz=2 and symbolic A or C",
 }
-ASSUMPTIONS = ["T up to 12 and N>3 are outside (expression growth is exponential in the number of nested inverses); explored orders are all permutations for the stated N"]
+ASSUMPTIONS = ["fully symbolic filters beyond T=3 and N>3 are outside (expression growth is exponential in the number of nested inverses); T up to 12 is covered with the model matrices bound to seeded generic rationals (a sample in the matrices, universally quantified in the initial mean, offsets and all data); explored orders are all permutations for the stated N"]
 
 
 def _bind(b, name, kind, shape, concrete):
@@ -241,7 +241,10 @@ def cases(tier, seed=0):
            kalman_case(1, 1, 2),
            kalman_case(2, 1, 2, concrete=("A", "Q", "C", "R", "S0")),
            kalman_case(2, 1, 2, concrete=("A", "Q", "R", "S0")),
-           kalman_case(1, 2, 2, concrete=("R",))]
+           kalman_case(1, 2, 2, concrete=("R",)),
+           # long filters: all model matrices generic rationals, initial mean / offsets / all data symbolic
+           kalman_case(2, 1, 6, concrete=("A", "Q", "C", "R", "S0")),
+           kalman_case(1, 1, 8, concrete=("A", "Q", "C", "R", "S0"))]
     if tier == "thorough":
         out += [regression_case(1, 1, 3, timeout=3000),
                 regression_case(2, 1, 3, concrete=("Sw", "M", "Sy"), timeout=3000),
@@ -255,5 +258,8 @@ def cases(tier, seed=0):
                 kalman_case(2, 1, 2, concrete=("A", "C", "R", "S0"), timeout=3000),
                 kalman_case(2, 1, 2, concrete=("Q", "C", "R", "S0"), timeout=3000),
                 regression_case(1, 2, 2, concrete=("Sy",), timeout=3000),
-                kalman_case(2, 1, 2, concrete=("A", "Q", "C", "S0"), timeout=3000)]
+                kalman_case(2, 1, 2, concrete=("A", "Q", "C", "S0"), timeout=3000),
+                kalman_case(2, 1, 12, concrete=("A", "Q", "C", "R", "S0"), timeout=3000),
+                kalman_case(2, 2, 8, concrete=("A", "Q", "C", "R", "S0"), timeout=3000),
+                kalman_case(3, 2, 6, concrete=("A", "Q", "C", "R", "S0"), timeout=3000)]
     return out
